@@ -9,7 +9,9 @@ Binding: every enumerated statement is built with the real expression language -
 it must receive can be read off the text the driver gets - and executed on SQLite through a recording DBAPI wrapper with
 create_engine(paramstyle=...) for the six styles (qmark / named native, the others through a ~40 line placeholder translator).
 (trace, code -> spec) what cursor.execute received is validated by TLC: TraceCorrect, TraceAccepted, TraceStyle.  Rows must be identical
-across styles and equal to the same statement with the values written inline.  PostgreSQL / MySQL dialects: compile + expand only.
+across styles and equal to the same statement with the values written inline.  psycopg2 / psycopg / asyncpg / pg8000 / pymysql /
+mysqlclient / mariadb-connector: the dialect's REAL execution context (_init_compiled) over a fake connection yields the (statement,
+parameters) the driver would get; validated by TLC, not executed.
 """
 import json
 import os
@@ -31,8 +33,9 @@ MANIFEST = dict(
          "must get is read off the delivered text), and the rows must equal those of the statement with inline values, in every style.",
     design_ref="3.12, 4 (C04)",
     note="trusted: TLC; the SQL tokenizer of the harness (regular expressions over harness-built statements) and the placeholder translator "
-         "for format / pyformat / numeric / numeric_dollar (sqlite3 itself only executes qmark and named); only sqlite3 executes - psycopg2, "
-         "asyncpg, pymysql, mysqlclient dialects are compiled and expanded, not executed",
+         "for format / pyformat / numeric / numeric_dollar (sqlite3 itself only executes qmark and named); only sqlite3 executes - for psycopg2, "
+         "psycopg, asyncpg, pg8000, pymysql, mysqlclient, mariadb-connector the dialect's real execution context assembles (statement, "
+         "parameters) over a fake connection and TLC validates that delivery",
     technique="TLA+ spec (ParamStyle.tla) + TLC exhaustive theorem checking of the delivery scheme; spec->code replay of every enumerated "
               "statement on six paramstyles; code->spec trace validation of every (sql, parameters) handed to cursor.execute")
 
@@ -559,6 +562,6 @@ def main(chk):
                   "non-trivial = exchanging the values of two binds changes the rows of the statement (measured with inline values)",
              checker_cmd="tlc ParamStyle.tla (Mode model | names | trace)"),
         assumptions=["only sqlite3 executes; format / pyformat / numeric / numeric_dollar through the harness's placeholder translator",
-                     "PostgreSQL / MySQL driver dialects (psycopg2, psycopg, asyncpg, pg8000, pymysql, mysqlclient): compiled and expanded, the "
-                     "delivery validated by TLC, not executed",
+                     "PostgreSQL / MySQL driver dialects (psycopg2, psycopg, asyncpg, pg8000, pymysql, mysqlclient, mariadb-connector): delivery "
+                     "assembled by the real DefaultExecutionContext._init_compiled over a fake connection, validated by TLC, not executed",
                      "bounded: statements of <=%d occurrences" % (3 if chk.quick else 4)])
